@@ -145,6 +145,28 @@ K.loop(5, var="j", invariant=["0 <= j and j <= ncol + 1",
                               "not isnan(crps_decompos[0]) and not isnan(crps_decompos[1]) and not isnan(crps_potential) and crps_decompos[0] == crps_decompos[1] + crps_potential",
                               "crps_decompos[1] >= 0 and crps_potential >= 0 and not isnan(uncertainty) and uncertainty >= 0"])
 
+# ---- functional contract (C03): the uncertainty term is the CRPS of the observed climatology, i.e. the weighted sum over the pairs of
+#      observations  sum_{k<i} w_i w_k |obs_k - obs_i|  ( = 1/2 E|Y - Y'| over the empirical distribution of the observations ), weighted or not
+K = F.kernel("c_crps#uncertainty")
+K.option(uf_mul=True)     # the products w_i*w_k*|.| are compared structurally with the ghost sum
+K.requires("nval >= 1 and nval <= 2**15 and ncol >= 1 and ncol <= 2**15 and (use_weights == 0 or use_weights == 1)")
+K.requires("valid(obs, nval) and valid(sim, nval*ncol) and valid(reliability_table, (ncol+1)*7) and valid(crps_decompos, 5)")
+K.requires("implies(use_weights == 1, valid(weights_vector, nval) and forall(q, 0 <= q < nval, not isnan(weights_vector[q])))")
+K.requires("separated(obs, sim, weights_vector, reliability_table, crps_decompos)")
+K.requires("forall(q, 0 <= q < nval, not isnan(obs[q]))")
+K.assigns("reliability_table[0:(ncol+1)*7]", "crps_decompos[0:5]")
+K.ghost("wgt(q)", "real", "ite(use_weights == 1, weights_vector[q], 1.0/real(nval))")
+K.ghost("uin(i, m)", "real", "ite(m <= 0, 0.0, uin(i, m - 1) + wgt(i)*wgt(m - 1)*abs(obs[m - 1] - obs[i]))", decreases="m")
+K.ghost("uout(n)", "real", "ite(n <= 0, 0.0, uout(n - 1) + uin(n - 1, n - 1))", decreases="n")
+K.ensures("implies(result == 0, not isnan(crps_decompos[3]) and crps_decompos[3] == uout(nval))", props=["C03"])
+K.loop(0, var="j", invariant=["0 <= j and j <= ncol + 1 and not isnan(uncertainty) and uncertainty == 0.0"])
+K.loop(1, var="i", invariant=["0 <= i and i <= nval", "not isnan(uncertainty) and uncertainty == uout(i)"])
+K.loop(2, var="j", invariant=["0 <= i and i < nval and 0 <= j and j <= ncol"])
+K.loop(3, var="j", invariant=["0 <= i and i < nval and 0 <= j and (j <= ncol - 1 or ncol < 1)"])
+K.loop(4, var="k", invariant=["0 <= i and i < nval and 0 <= k and k <= i", "not isnan(weight) and weight == wgt(i)",
+                              "not isnan(uncertainty) and uncertainty == uout(i) + uin(i, k)"])
+K.loop(5, var="j", invariant=["0 <= j and j <= ncol + 1"])
+
 # ====================================================================================== c_dscore.c (C05 safety; C10)
 F = cfile("src/hydrodiy/stat/c_dscore.c")
 K = F.kernel("c_ensrank")
